@@ -18,4 +18,5 @@ PROPERTY HistoryAppendOnly
 PROPERTY ElitistMonotone
 PROPERTY StepRefinesFrame
 PROPERTY Terminates
+VIEW view
 CHECK_DEADLOCK FALSE
